@@ -6,7 +6,10 @@ from harness.props import gen_common as G
 ID = "C02"
 RULE = ("case = (generator type, construction path, jds, sizes, build callbacks, naming configuration, motif_indices, "
         "permutations); motif shapes {bare edge, 0, 1, 2, 3, k edges; tuple-of-tuples, list-of-tuples, edges as lists} "
-        "x {homogeneous, per-edge names}; exhaustive small family (N<=2 with column sums <=3 and N<=3 with sums <=2 in quick; N<=2 sums <=4 and N<=3 sums <=3 in thorough; <=2 topologies/orbits, all permutations, every "
+        "x {homogeneous, per-edge names} x the FORM in which the callbacks hand back their results (naming callbacks: tuple / "
+        "list / iterator / generator / map / itertools.repeat, a fresh one-shot object per call; build callbacks: as written / "
+        "tuple / list / lists of lists), rotating over two thirds of the exhaustive family and drawn at random for 60% of the "
+        "random cases; exhaustive small family (N<=2 with column sums <=3 and N<=3 with sums <=2 in quick; N<=2 sums <=4 and N<=3 sums <=3 in thorough; <=2 topologies/orbits, all permutations, every "
         "builder that accepts the motif size) + seeded random (N<=12, <=4 orbits) + malformed stream; compared: the "
         "three columns entry by entry, callback calls, joint_degrees; a share of the random cases are histories (2-3 "
         "generations on the same algorithm object / jds list, returned object damaged in between); the DESIGN section-3 replay is corpus entry 1; "
@@ -72,7 +75,14 @@ def corpus():
 
 
 def shape_cases(N_max, maxsum, tags, vias):
-    """every builder that accepts the motif size, on every small single-/two-orbit configuration, all permutations"""
+    """every builder that accepts the motif size, on every small single-/two-orbit configuration, all permutations;
+    the forms in which the callbacks hand back their results (tuple / list / iterator / generator / map / repeat for
+    the names, tuple / list / lists of lists for the edges) rotate over the family"""
+    for k, c in enumerate(_shape_cases(N_max, maxsum, tags, vias)):
+        yield G.add_forms(c, k=k) if k % 3 else c
+
+
+def _shape_cases(N_max, maxsum, tags, vias):
     import itertools
     for N in range(1, N_max + 1):
         for T in (1, 2):
